@@ -434,6 +434,9 @@ pub fn all_params(tier: Tier) -> Vec<(Params, usize)> {
     let f = |stream, up, path, chunks: &[usize], rb| Flow { stream, up, path, chunks: chunks.to_vec(), read_buf: rb };
     let schemes_b: [(&'static str, &'static str); 4] = [(STOP0, "stop0"), (DEFAULT, "default"), (TINY, "tiny"), (BRANCHY, "branchy")];
     for (scheme, scheme_name) in schemes_b {
+        if !thorough && scheme_name == "default" {
+            continue; // quick: the tiny and branchy schemes take every shaper branch
+        }
         // two streams upstream, direct path, short reads straddling headers
         v.push((Params { streams: 2, flows: vec![f(0, true, Path::Direct, &[1, 7], 7), f(1, true, Path::Direct, &[8, 30], 8192)], scheme, scheme_name, capacity: usize::MAX, read_menu: true, write_menu: false }, b));
         // two streams downstream through the forwarding task
@@ -453,10 +456,12 @@ pub fn items(tier: Tier) -> Vec<DxItem> {
     let mut v: Vec<DxItem> = all_params(tier).into_iter().map(|(p, b)| DxItem::new(params_json(&p), make(p), b)).collect();
     let b = if tier.is_thorough() { 3 } else { 2 };
     for (scheme, scheme_name) in [(STOP0, "stop0"), (DEFAULT, "default"), (TINY, "tiny")] {
-        for (openers, forward, write_menu, fresh, bound) in [(1, true, false, false, b), (1, false, false, false, b), (2, true, false, false, b - 1), (1, true, true, false, b - 1), (1, true, false, true, b - 1), (2, false, false, true, b - 1)] {
+        let deep = if tier.is_thorough() || scheme_name == "stop0" { b } else { b - 1 };
+        for (openers, forward, write_menu, fresh, bound) in [(1, true, false, false, deep), (1, false, false, false, deep), (2, true, false, false, b - 1), (1, true, true, false, b - 1), (1, true, false, true, b - 1), (2, false, false, true, b - 1)] {
             let p = BannerParams { openers, forward, scheme, scheme_name, write_menu, fresh };
             let mut it = DxItem::new(banner_json(&p), make_banner(p), bound);
             it.exec.long_yield = 5;
+            it.exec.quiesce = true;
             v.push(it);
         }
     }
